@@ -241,6 +241,49 @@ int main ()
     long double var = m2 - m1*m1; long double rv = ln.get_mod_variance();
     O.put ((double) fabsl (m1 - ln.get_mod_mean())); O.put ((double) (fabsl (var - rv) / std::max (rv, 1e-300L))); O.put (std::fabs (sqrt (ln.get_mod_variance()) - beta) / beta); };
 
+
+  // ------------------------------------------------------------ C08: covariant mode pairs
+  // build the bivariate log-normal coordinator, request factors in the given interleaving ('A'/'B')
+  OP("cov.seq") { double rho = A.d(); double b0 = A.d(); double b1 = A.d(); std::string pat = A.next();
+    while (!A.done()) g_normal.push_back ((float) A.d());
+    epsic::bivariate_lognormal_modes* co = new epsic::bivariate_lognormal_modes (rho); co->set_normal (&g_bm);
+    co->set_beta (0, b0); co->set_beta (1, b1);
+    epsic::mode* ma = new epsic::mode; epsic::mode* mb = new epsic::mode;
+    epsic::modulated_mode* A_ = co->get_modulated_mode (0, ma); epsic::modulated_mode* B_ = co->get_modulated_mode (1, mb);
+    O.put (A_->get_mod_mean()); O.put (A_->get_mod_variance()); O.put (B_->get_mod_mean()); O.put (B_->get_mod_variance());
+    O.put (co->get_correlation()); O.put (co->get_intensity_covariance());
+    for (char c : pat) O.put (c == 'A' ? A_->modulation() : B_->modulation());
+    O.puti (g_normal_calls); };
+  // oracle: pairing under an arbitrary interleaving, with a counting coordinator (draw k delivers (k, k + 1/2))
+  OP("o.c08.pairing") { std::string pat = A.next();
+    struct counting : public epsic::covariant_coordinator { unsigned long k = 0; counting () : covariant_coordinator (0.0) {}
+      void get_modulation (double& a, double& b) { a = double(k); b = double(k) + 0.5; k++; }
+      double get_mod_mean (unsigned) const { return 1; } double get_mod_variance (unsigned) const { return 1; } } co;
+    epsic::mode ma, mb; epsic::modulated_mode* A_ = co.get_modulated_mode (0, &ma); epsic::modulated_mode* B_ = co.get_modulated_mode (1, &mb);
+    unsigned long na = 0, nb = 0; long bad = 0;
+    for (char c : pat) { if (c == 'A') { double v = A_->modulation(); if (v != double(na)) bad++; na++; } else { double v = B_->modulation(); if (v != double(nb) + 0.5) bad++; nb++; } }
+    // every draw is made exactly once: the number of draws equals the larger request count
+    if (co.k != std::max (na, nb)) bad++;
+    O.put ((double) bad); };
+  // oracle: moments of the delivered pairs by 2-D Gauss-Hermite quadrature through the deviate source
+  OP("o.c08.moments") { double rho = A.d(); double b0 = A.d(); double b1 = A.d();
+    epsic::bivariate_lognormal_modes* co = new epsic::bivariate_lognormal_modes (rho); co->set_normal (&g_bm);
+    co->set_beta (0, b0); co->set_beta (1, b1); epsic::mode* ma = new epsic::mode; epsic::mode* mb = new epsic::mode;
+    epsic::modulated_mode* A_ = co->get_modulated_mode (0, ma); epsic::modulated_mode* B_ = co->get_modulated_mode (1, mb);
+    static const double gx[8] = { 0.27348104613815245, 0.82295144914465589, 1.3802585391988808, 1.9517879909162540, 2.5462021578474814, 3.1769991619799560, 3.8694479048601227, 4.6887389393058184 };
+    static const double gw[8] = { 5.0792947901661374e-1, 2.8064745852853368e-1, 8.3810041398985829e-2, 1.2880311535509974e-2, 9.3228400862418053e-4, 2.7118600925378815e-5, 2.3209808448652107e-7, 2.6548074740111822e-10 };
+    long double ma1 = 0, mb1 = 0, maa = 0, mbb = 0, mab = 0; bool finite = true;
+    for (int i=0;i<16;i++) for (int j=0;j<16;j++) {
+      double xi = (i<8 ? gx[i] : -gx[i-8]), xj = (j<8 ? gx[j] : -gx[j-8]);
+      float gi = (float)(sqrt(2.0)*xi), gj = (float)(sqrt(2.0)*xj); g_normal.push_back (gi); g_normal.push_back (gj);
+      double a = A_->modulation(); double b = B_->modulation(); finite = finite && std::isfinite (a) && std::isfinite (b);
+      long double w = gw[i%8]*gw[j%8] / M_PIl * expl (xi*xi - 0.5L*(long double)gi*gi) * expl (xj*xj - 0.5L*(long double)gj*gj);
+      ma1 += w*a; mb1 += w*b; maa += w*(long double)a*a; mbb += w*(long double)b*b; mab += w*(long double)a*b; }
+    long double va = maa - ma1*ma1, vb = mbb - mb1*mb1, cab = mab - ma1*mb1;
+    O.puti (finite ? 1 : 0);
+    O.put ((double) fabsl (ma1 - 1)); O.put ((double) fabsl (mb1 - 1)); O.put ((double) (fabsl (va - b0*b0) / (b0*b0))); O.put ((double) (fabsl (vb - b1*b1) / (b1*b1)));
+    O.put ((double) (fabsl (cab - rho*b0*b1) / (b0*b1))); O.put ((double) (fabsl (cab - co->get_intensity_covariance()) / (b0*b1))); };
+
   std::string line;
   while (std::getline (std::cin, line)) {
     A_ a; { std::istringstream is (line); std::string t; while (is >> t) a.tok.push_back (t); }
